@@ -158,7 +158,7 @@ def _standalone_job(k):
         prob.model.set_input_defaults("wing_sec_forces", rng.normal(0, 1e3, (nx - 1, ny - 1, 3)), units="N")
     else:
         ny = 4
-        surf = {"name": "wing", "mesh": np.zeros((2, ny, 3)), "symmetry": True}
+        surf = {"name": "wing", "mesh": np.zeros((2, ny, 3)), "symmetry": bool((k // 7) % 2)}
         prob.model.add_subsystem("e", Energy(surface=surf), promotes=["*"])
         prob.model.set_input_defaults("disp", rng.normal(0, 0.1, (ny, 6)))
         prob.model.set_input_defaults("loads", rng.normal(0, 1e3, (ny, 6)))
